@@ -30,6 +30,12 @@ pub enum POp {
     InvWith(u8),
     InvName,
     InvTag(String),
+    /// a second call is started and polled once (it stays pending if its body awaits)
+    SuspendW { k: Key, err: bool, size: u32, dur_ns: i64, gates: u8, inv: bool, cif: bool },
+    /// the second pending call is polled to completion
+    ResumeW,
+    /// the second pending call is dropped
+    DropW,
 }
 
 #[derive(Clone, Debug, PartialEq, Serialize, Deserialize)]
@@ -97,11 +103,24 @@ fn to_c20(mut c: Clause, what: &str) -> Clause {
     c
 }
 
+struct PendingW {
+    fut: crate::corpus::AFut,
+    k: Key,
+    err: bool,
+    inv: bool,
+    cif: bool,
+    hit_stamp: Option<u64>,
+    model_before: Model,
+    now0: i64,
+    stamp: u64,
+}
+
 struct Sim {
     s: &'static FnSpec,
     cfg: FnCfg,
     model: Model,
     now: i64,
+    w: Option<PendingW>,
 }
 
 impl Sim {
@@ -142,9 +161,117 @@ impl Sim {
         }
     }
 
+    /// Starts a second call and polls it once.
+    fn suspend_w(&mut self, op: &POp, what: &str) {
+        if self.w.is_some() {
+            return;
+        }
+        let s = self.s;
+        if let POp::SuspendW { k, err, size, dur_ns, gates, inv, cif } = op {
+            let script = Script { err: *err, size: *size, shape: 0, dur_ns: *dur_ns, gates: *gates, inv_verdict: *inv, cif_verdict: *cif };
+            world::set_plan(s.id, *k, script);
+            let (n0, i0) = world::with(|w| (w.execs.len(), w.inv_seen.len()));
+            seams::set_now_ns(self.now);
+            let now0 = self.now;
+            let model_before = self.model.clone();
+            let mut fut = (s.fut.expect("async function"))(*k);
+            let waker = std::task::Waker::noop();
+            let mut cx = Context::from_waker(&waker);
+            if let Poll::Ready(_r) = fut.as_mut().poll(&mut cx) {
+                // served from the cache at once: an ordinary call; re-run it through the checked path
+                // is not possible (it already happened), so account for it as a hit/complete call
+                let (execs, invs) = world::with(|w| (w.execs[n0..].to_vec(), w.inv_seen[i0..].iter().map(|x| x.2).collect::<Vec<u64>>()));
+                let obs = CallObs { ret_stamp: _r.stamp, ret_err: _r.is_err, exec_stamp: execs.first().map(|e| e.stamp), fp: _r.fp, inv_seen: invs, cif_seen: vec![], keys_after: Some(listed(s)), stats: stats(s) };
+                let plan = CallPlan { k: *k, err: *err, dur_ns: seams::peek_now_ns() - now0, inv_verdict: *inv, cif_verdict: *cif };
+                if execs.is_empty() {
+                    match check_call(&self.model, &self.cfg, &plan, &obs, now0) {
+                        Ok(m) => self.model = m,
+                        Err(c) => {
+                            let c = to_c20(c, what);
+                            let o: Vec<&str> = c.owners.iter().map(|x| x.as_str()).collect();
+                            fail(&c.name, &o, c.detail);
+                        }
+                    }
+                    self.now = seams::peek_now_ns();
+                } else {
+                    fail("harness", &["HARNESS"], "a body with an await completed in one poll".to_string());
+                }
+                return;
+            }
+            let (execs, invs) = world::with(|w| (w.execs[n0..].to_vec(), w.inv_seen[i0..].iter().map(|x| x.2).collect::<Vec<u64>>()));
+            let stamp = match execs.first() {
+                Some(e) => e.stamp,
+                None => fail("harness", &["HARNESS"], "a pending call has not started its body".to_string()),
+            };
+            let obs = CallObs { exec_stamp: Some(stamp), inv_seen: invs, ..Default::default() };
+            let plan = CallPlan { k: *k, err: *err, dur_ns: 0, inv_verdict: *inv, cif_verdict: *cif };
+            match check_call_begin(&self.model, &self.cfg, &plan, &obs, now0) {
+                Ok((m1, h)) => {
+                    self.model = m1;
+                    self.now = seams::peek_now_ns();
+                    self.w = Some(PendingW { fut, k: *k, err: *err, inv: *inv, cif: *cif, hit_stamp: h, model_before, now0, stamp });
+                    self.expect_keys("right after suspending a second call");
+                }
+                Err(c) => {
+                    let c = to_c20(c, "second pending call, lookup");
+                    let o: Vec<&str> = c.owners.iter().map(|x| x.as_str()).collect();
+                    fail(&c.name, &o, c.detail);
+                }
+            }
+        }
+    }
+
+    fn resume_w(&mut self, what: &str) {
+        let s = self.s;
+        if let Some(mut w) = self.w.take() {
+            seams::set_now_ns(self.now);
+            let (n1, i1, c1) = world::with(|x| (x.execs.len(), x.inv_seen.len(), x.cif_seen.len()));
+            let waker = std::task::Waker::noop();
+            let mut cx = Context::from_waker(&waker);
+            let r = loop {
+                if let Poll::Ready(r) = w.fut.as_mut().poll(&mut cx) {
+                    break r;
+                }
+            };
+            let now_end = seams::peek_now_ns();
+            let (execs, invs, cifs) = world::with(|x| (x.execs[n1..].to_vec(), x.inv_seen[i1..].to_vec(), x.cif_seen[c1..].to_vec()));
+            if !execs.is_empty() || !invs.is_empty() || r.stamp != w.stamp {
+                fail("resumed_call_looked_up_again", &["C20"], format!("{what}: resuming {}({}) ran bodies {:?} / consulted invalidate_on {:?} / returned stamp {} (its own execution is {})", s.fn_name, w.k, execs, invs, r.stamp, w.stamp));
+            }
+            let obs = CallObs {
+                ret_stamp: r.stamp,
+                ret_err: r.is_err,
+                exec_stamp: Some(r.stamp),
+                fp: r.fp,
+                inv_seen: vec![],
+                cif_seen: cifs.iter().map(|x| x.2).collect(),
+                keys_after: Some(listed(s)),
+                stats: stats(s),
+            };
+            let plan = CallPlan { k: w.k, err: w.err, dur_ns: 0, inv_verdict: w.inv, cif_verdict: w.cif };
+            match check_call_end(&w.model_before, &self.model, &self.cfg, &plan, &obs, w.hit_stamp, now_end, w.now0) {
+                Ok(m) => self.model = m,
+                Err(c) => {
+                    let c = to_c20(c, "a second resumed call must store as an ordinary completion at resume time");
+                    let o: Vec<&str> = c.owners.iter().map(|x| x.as_str()).collect();
+                    fail(&c.name, &o, format!("{} | fn {} #[{}]", c.detail, s.fn_name, s.attrs));
+                }
+            }
+            self.now = now_end;
+        }
+    }
+
     fn other(&mut self, op: &POp, what: &str) {
         let s = self.s;
         match op {
+            POp::SuspendW { .. } => self.suspend_w(op, what),
+            POp::ResumeW => self.resume_w(what),
+            POp::DropW => {
+                if let Some(w) = self.w.take() {
+                    drop(w);
+                    self.expect_keys("right after dropping the second pending call");
+                }
+            }
             POp::Call { .. } => self.full_call(op, what),
             POp::Adv(dt) => {
                 self.now += *dt;
@@ -204,7 +331,7 @@ pub fn run_pcase(case: &PCase) {
     dashmap::SALT.store(case.salt, std::sync::atomic::Ordering::Relaxed);
     fastrand::seed(case.salt);
     world::reset_run(case.salt);
-    let mut sim = Sim { s, cfg: cfg_of(s), model: Model::new(cfg_of(s).params), now: 0 };
+    let mut sim = Sim { s, cfg: cfg_of(s), model: Model::new(cfg_of(s).params), now: 0, w: None };
     for op in &case.pre {
         sim.other(op, "before the victim call");
     }
@@ -375,6 +502,9 @@ pub fn run_pcase(case: &PCase) {
     for op in &case.post {
         sim.other(op, if case.resume { "after the call was resumed" } else { "after the call was dropped" });
     }
+    if sim.w.is_some() {
+        sim.other(&POp::DropW, "at the end");
+    }
 }
 
 // ---------------------------------------------------------------------------------------
@@ -439,6 +569,21 @@ pub fn gen_base(seed: u64, run: u64) -> PCase {
         let n = during.len() - 1;
         during.swap(0, n);
     }
+    // a second call in flight at the same time (same key: duplicate computation; or another key)
+    let mut w_pending = false;
+    if r.chance(2, 5) {
+        let k = if r.chance(1, 2) { k0 } else { r.below(nk) as Key };
+        if let POp::Call { k, err, size, dur_ns, gates, inv, cif } = gen_call(&mut r, s, k, whole) {
+            let at = r.below(during.len() as u64 + 1) as usize;
+            during.insert(at, POp::SuspendW { k, err, size, dur_ns, gates, inv, cif });
+            w_pending = true;
+            match r.below(3) {
+                0 => during.push(POp::ResumeW),
+                1 => during.push(POp::DropW),
+                _ => {}
+            }
+        }
+    }
     let mut post = Vec::new();
     post.push(gen_call(&mut r, s, k0, whole));
     for _ in 0..r.below(5) {
@@ -447,6 +592,10 @@ pub fn gen_base(seed: u64, run: u64) -> PCase {
         }
         let k = if r.chance(1, 3) { k0 } else { r.below(nk) as Key };
         post.push(gen_call(&mut r, s, k, whole));
+    }
+    if w_pending && r.chance(1, 2) {
+        let at = r.below(post.len() as u64 + 1) as usize;
+        post.insert(at, if r.chance(2, 3) { POp::ResumeW } else { POp::DropW });
     }
     PCase { f: s.id, pre, victim, polls: 1, resume: true, during, post, shards: *r.pick(&[1u8, 2, 4]), salt: r.next_u64() }
 }
@@ -573,7 +722,7 @@ pub fn run_batch(prop: &str, seed: u64, start: u64, runs: u64, dir: &PathBuf, kn
                 simcore::watchdog::end_case();
                 res.counters.inc(&format!("fault.{}_at_await_{}", if resume { "suspend_resume" } else { "cancel" }, polls));
                 res.counters.inc(&format!("family.{}", spec(case.f).family));
-                let kinds: BTreeSet<&str> = case.during.iter().map(|o| match o { POp::Call { .. } => "call", POp::Adv(_) => "adv", POp::InvWith(_) => "inv_with", POp::InvName => "inv_name", POp::InvTag(_) => "inv_tag" }).collect();
+                let kinds: BTreeSet<&str> = case.during.iter().map(|o| match o { POp::Call { .. } => "call", POp::Adv(_) => "adv", POp::InvWith(_) => "inv_with", POp::InvName => "inv_name", POp::InvTag(_) => "inv_tag", POp::SuspendW { .. } => "second_pending", POp::ResumeW => "resume_second", POp::DropW => "drop_second" }).collect();
                 let cls = format!("f{}|{}|{}|{:?}", case.f, polls, resume, kinds);
                 *kinds_seen.entry(cls.clone()).or_insert(0) += 1;
                 res.distinct.insert(hash_str(&cls));
